@@ -408,6 +408,7 @@ func c16More(c *Ctx) {
 	c.Rule("C16.R7", "no send on the muxer's queue after close: every send on Unreliable.sendQueue forwards an item taken from the tube's own queue (the sender goroutine, joined by Close) or lies in a critical section of lifecycleMu in which u.state was loaded and found not closed (Muxer.Stop closes the queue once every Close has returned; a send outside the critical section panics on the closed queue) (E1 + E5)")
 	unreliableSendRule(c, "C16.R7")
 	c16R8(c)
+	c16R9(c)
 
 	// sends on the sender's queues
 	fSQ := P.Field("tubes", "sender", "sendQueue")
@@ -1165,4 +1166,65 @@ func c16R8(c *Ctx) {
 		}
 	}
 	c.Floor(rule, "addTube calls on paths of the tube constructors", total, 2)
+}
+
+// c16R9: join the producer before waiting under the lock. Unreliable.Close swaps the state, then takes
+// lifecycleMu again and, holding it, waits for senderDone. senderDone is closed by the sender goroutine
+// or by initiate, and initiate takes lifecycleMu in its loop: if initiate is still running when Close
+// re-acquires the mutex, Close waits for a channel that only a goroutine blocked on that mutex can close.
+// initiate announces its end by closing initiateDone (deferred), whatever state it observed. Rule: on every
+// path of Close, a receive from initiateDone lies between the state swap and every later acquisition of
+// lifecycleMu — not only on the path where the tube was still in the created state.
+func c16R9(c *Ctx) {
+	P := c.P
+	const rule = "C16.R9"
+	c.Rule(rule, "join the producer before waiting under the lock: on every path of Unreliable.Close a receive from initiateDone lies between the state swap and every later Lock of lifecycleMu (initiate takes that mutex and is the one that closes senderDone in some states; re-acquiring the mutex while it still runs and then waiting for senderDone deadlocks Close, WaitForClose and Muxer.Stop) (E1 order)")
+	fn := P.Func("tubes", "(*Unreliable).Close")
+	fMu := P.Field("tubes", "Unreliable", "lifecycleMu")
+	fDone := P.Field("tubes", "Unreliable", "initiateDone")
+	fState := P.Field("tubes", "Unreliable", "state")
+	if fn == nil || fMu == nil || fDone == nil || fState == nil {
+		c.Undecided(rule, "tubes.(*Unreliable).Close", "function or fields not found")
+		return
+	}
+	name := FuncName(fn)
+	c.Analysed(name)
+	fs := newFailSet()
+	n := 0
+	ok := walkAll(c, rule, fn, func(p *Path) {
+		swapped, joined := false, false
+		p.ForEach(func(i int, ins ssa.Instruction) bool {
+			switch x := ins.(type) {
+			case *ssa.Call:
+				f := calleeFunc(&x.Call)
+				if f == nil || x.Call.IsInvoke() || len(x.Call.Args) == 0 {
+					return true
+				}
+				if (f.Name() == "Swap" || f.Name() == "CompareAndSwap" || f.Name() == "Store") && lastField(x.Call.Args[0]) == fState {
+					swapped, joined = true, false
+				}
+				if f.Name() == "Lock" && lastField(x.Call.Args[0]) == fMu && swapped {
+					n++
+					if !joined {
+						fs.add("joined", "Close re-acquires lifecycleMu after the state swap on a path that has not waited for initiateDone: a still-running initiate needs that mutex to finish, and Close then waits under it for senderDone, which only initiate closes in that state", ins, p)
+					}
+				}
+			case *ssa.UnOp:
+				if x.Op == token.ARROW && lastField(x.X) == fDone {
+					joined = true
+				}
+			case *ssa.Select:
+				for _, st := range x.States {
+					if st.Dir == types.RecvOnly && lastField(st.Chan) == fDone && x.Blocking && len(x.States) == 1 {
+						joined = true
+					}
+				}
+			}
+			return true
+		})
+	})
+	if ok {
+		fs.report(c, rule, name, []string{"joined"}, P.Pos(fn.Pos()), "initiate joined before the mutex is taken again")
+		c.Floor(rule, "re-acquisitions of lifecycleMu after the swap on paths of Close", n, 1)
+	}
 }
